@@ -114,8 +114,8 @@ macro_rules! debug_core {
             let mut m2 = <$ty>::new(&k2.into(), blk::<$ivbs>(&iv2));
             let p1: $ct = kani::any();
             let p2: $ct = kani::any();
-            m1.set_block_pos(p1);
-            m2.set_block_pos(p2);
+            m1.set_block_pos(p1 as _);
+            m2.set_block_pos(p2 as _);
             let mut b: [u8; $ivlen] = kani::any();
             m2.write_keystream_block(blk_mut::<$ivbs>(&mut b));
             let (s1, s2) = (fmt_debug(&m1), fmt_debug(&m2));
@@ -185,8 +185,8 @@ macro_rules! debugc_core {
             let mut m2 = <$ty>::new(&k2.into(), blk::<$ivbs>(&iv2));
             let p1: $ct = kani::any();
             let p2: $ct = kani::any();
-            m1.set_block_pos(p1);
-            m2.set_block_pos(p2);
+            m1.set_block_pos(p1 as _);
+            m2.set_block_pos(p2 as _);
             let mut b: [u8; $ivlen] = [0x3c; $ivlen];
             let _ = &mut b;
             let (s1, s2) = (fmt_debug(&m1), fmt_debug(&m2));
@@ -279,7 +279,7 @@ macro_rules! drop_core {
             let pos: $ct = kani::any();
             let mut b: [u8; $ivlen] = kani::any();
             let img = drop_image!($ty, SZ, <$ty>::inner_iv_init(UfZ::new(), blk::<$ivbs>(&iv)), |m| {
-                m.set_block_pos(pos);
+                m.set_block_pos(pos as _);
                 m.write_keystream_block(blk_mut::<$ivbs>(&mut b));
             });
             let mut i = 0;
